@@ -14,6 +14,11 @@ package corr
 //                                        (c05_sender_malformed_test.go): forms the RTP header parser accepts are
 //                                        recorded like any packet; forms it rejects make the Read of a stream
 //                                        that negotiated the extension fail (`err:read`) and record nothing
+//        nowriter                        (first op, after `cfg` if there is one) no RTCP writer is bound when the case
+//                                        starts: the application binds its remote streams first.  A Read of a packet
+//                                        that carries the extension then returns only when the writer is bound …
+//        bindw                           … BindRTCPWriter now (`bad-op` when one is bound): the packets read so far are
+//                                        recorded, each with the time of ITS read, and the ticker starts now
 // The stream `media` is bound, with the extension, when the case starts; `pkt seq=` is a packet of it.
 // Every stream negotiates its OWN extension id (c05ExtID, a function of the SSRC) among other header
 // extensions under the remaining ids, and every packet carries other extensions under all the ids it does
@@ -24,6 +29,13 @@ package corr
 // The bound RTCPWriter may refuse chosen calls (ambient `failrtcp=`, ambient_test.go): the attempted batch is
 // printed all the same, and feedback the transport refused is lost — the interceptor logs the error and goes on —,
 // so the model has nothing to learn about which attempts failed.
+// The bound RTCPWriter may also be SLOW (ambient options private to this component: `slowrtcp=<ms>` and, optionally,
+// `slowat=<calls>` in the syntax of failrtcp=): (virtual) time passes inside its Write while RTP keeps arriving —
+// every Read is then issued from a goroutine of its own, as the transport's reader goroutines do.  The arrival time
+// of a packet is the time at which it was read (C05: "arrival times are those of the packets' arrival"), not the
+// time at which the interceptor's goroutine got round to it, so as long as the Write returns before the next tick
+// (Go's select would otherwise choose at random between the tick and the waiting packets) the model has nothing
+// to learn about a slow transport either.
 
 import (
 	"fmt"
@@ -44,8 +56,11 @@ import (
 var c05MaskSS = regexp.MustCompile(`^fb ss=\d+ `)
 
 func c05SndCase(r *Rng, tier string, idx int) Case {
-	classes := []string{"steady", "bursty", "idle", "reorder", "ticks", "wrap", "streams", "streamsmix", "writefail", "malformed"}
+	classes := []string{"steady", "bursty", "idle", "reorder", "ticks", "wrap", "streams", "streamsmix", "writefail", "malformed", "slowwrite", "latebind"}
 	cl := classes[idx%len(classes)]
+	if cl == "slowwrite" || cl == "latebind" {
+		return c05SndSlowCase(r, cl)
+	}
 	if cl == "streams" || cl == "streamsmix" {
 		return c05SndStreamsCase(r, cl)
 	}
@@ -167,11 +182,112 @@ func c05Ambient(r *Rng, ops []string) []string {
 	return append([]string{amb}, ops...)
 }
 
+// c05SndSlowCase: classes `slowwrite` and `latebind`.  One to three streams that negotiated the extension share the
+// transport-wide counter; packets arrive every 0..40 ms.  slowwrite: every (or every k-th, or some) Write of the
+// bound RTCP writer takes 50..500 ms, less than the feedback interval, so packets are read while the interceptor's
+// goroutine is inside Write.  latebind: the case opens with `nowriter`; the streams are bound and packets arrive
+// (sometimes spread over more than an interval) before `bindw`; in half of these cases the writer is slow as well.
+func c05SndSlowCase(r *Rng, cl string) Case {
+	var ops []string
+	interval := r.Pick(100, 100, 250, 250, 1000)
+	media := uint32(c05Media)
+	if interval != 100 || r.Bool() {
+		media = uint32(r.U64())
+		ops = append(ops, fmt.Sprintf("cfg interval=%d media=%d", interval, media))
+	}
+	slow := cl == "slowwrite" || r.Bool()
+	amb := ""
+	if slow {
+		var d int
+		switch interval {
+		case 100:
+			d = r.Pick(50, 60, 75, 99)
+		case 250:
+			d = r.Pick(50, 100, 150, 200, 249)
+		default:
+			d = r.Pick(50, 125, 300, 400, 500, 999)
+		}
+		before := c05PickS(r, "", "", "", "stats", "noop")
+		amb = ambWith(ambOp(before, "", before != "" || r.Chance(1, 3), false, r.Chance(1, 4), false), fmt.Sprintf("slowrtcp=%d", d))
+		switch r.Intn(4) {
+		case 0:
+			amb = ambWith(amb, fmt.Sprintf("slowat=%%%d", r.Range(2, 3)))
+		case 1:
+			a := r.Range(1, 3)
+			amb = ambWith(amb, fmt.Sprintf("slowat=%d,%d,%d", a, a+r.Range(1, 2), a+r.Range(3, 6)))
+		}
+		if r.Chance(1, 4) {
+			amb = ambWith(amb, "attrs=1")
+		}
+		if r.Chance(1, 5) {
+			amb = ambWith(amb, c05FailSched(r))
+		}
+	}
+	ssrcs := []uint32{media}
+	for k := r.Pick(0, 0, 1, 2); k > 0; k-- {
+		ssrcs = append(ssrcs, media+uint32(r.Range(1, 1<<20)))
+	}
+	if cl == "latebind" {
+		ops = append(ops, "nowriter")
+	}
+	for _, s := range ssrcs[1:] {
+		ops = append(ops, fmt.Sprintf("bind ssrc=%d tcc=1", s))
+	}
+	seq := r.Intn(65536)
+	if r.Chance(1, 5) {
+		seq = 65536 - r.Range(1, 30)
+	}
+	traffic := func(n int, gaps []int) {
+		for ; n > 0; n-- {
+			for k := r.Pick(1, 1, 1, 2, 4); k > 0; k-- {
+				s := ssrcs[r.Intn(len(ssrcs))]
+				if s == media && r.Bool() {
+					ops = append(ops, fmt.Sprintf("pkt seq=%d", seq&0xFFFF))
+				} else {
+					ops = append(ops, fmt.Sprintf("pkt seq=%d ssrc=%d", seq&0xFFFF, s))
+				}
+				seq += r.Pick(1, 1, 1, 1, 2, 3)
+			}
+			ops = append(ops, fmt.Sprintf("adv us=%d", gaps[r.Intn(len(gaps))]))
+		}
+	}
+	gaps := []int{0, 250, 1000, 5000, 10000, 20000, 40000}
+	if r.Chance(1, 4) { // arrivals on the instants at which a Write begins and ends
+		gaps = []int{interval * 250, interval * 500, 10000, 25000, 50000}
+	}
+	if cl == "latebind" {
+		if r.Chance(1, 4) {
+			ops = append(ops, fmt.Sprintf("adv us=%d", r.Pick(1, 1000, 300000)))
+		}
+		if !r.Chance(1, 8) { // (else: the writer is bound before the first packet after all)
+			traffic(r.Range(1, 12), append(gaps, interval*400, interval*1000+1))
+		}
+		ops = append(ops, "bindw")
+		if r.Chance(1, 3) {
+			ops = append(ops, fmt.Sprintf("adv us=%d", r.Pick(0, 1, interval*1000-1, interval*1000)))
+		}
+	}
+	traffic(r.Range(10, 80), gaps)
+	if r.Chance(1, 3) { // a pause, then more
+		ops = append(ops, fmt.Sprintf("adv us=%d", r.Pick(600000, 2000000)))
+		traffic(r.Range(5, 30), gaps)
+	}
+	ops = append(ops, "adv us=2500000") // every Write has returned, every Read with it
+	if cl == "latebind" && r.Chance(1, 10) {
+		ops = append(ops, c05PickS(r, "bindw", "nowriter"))
+	}
+	if amb != "" {
+		ops = append([]string{amb}, ops...)
+	}
+	return Case{Class: cl, Ops: ops}
+}
+
 func c05SndRun(t *testing.T, ops []string, o *Out) {
 	synctest.Test(t, func(t *testing.T) {
 		interval := 100 * time.Millisecond
 		media := uint32(c05Media)
 		start := 0
+		cfgOK := true
 		if len(ops) > 0 && strings.HasPrefix(ops[0], "cfg ") {
 			_, m := kv(ops[0])
 			iv, ok1 := c05ParseU(m["interval"], 3600000)
@@ -181,9 +297,27 @@ func c05SndRun(t *testing.T, ops []string, o *Out) {
 				media = uint32(md)
 			} else {
 				o.P("bad-op")
+				cfgOK = false
 			}
 			start = 1
 		}
+		wbound := true
+		if cfgOK && start < len(ops) && ops[start] == "nowriter" {
+			wbound = false
+			start++
+		}
+		// a slow transport below: the chosen calls of the bound RTCP writer take `slowD` of (virtual) time
+		var slowD time.Duration
+		slowAt := parseSched("%1")
+		if o.Amb != nil && o.Amb.Opts["slowrtcp"] != "" {
+			slowD = time.Duration(atoi(o.Amb.Opts["slowrtcp"])) * time.Millisecond
+			if sc := o.Amb.Opts["slowat"]; sc != "" {
+				slowAt = parseSched(sc)
+			}
+		}
+		// a Read may have to wait for the interceptor's goroutine (it is inside a slow Write, or does not exist
+		// yet): every Read is then issued from a goroutine of its own
+		async := slowD > 0 || !wbound
 		quiet := logging.NewDefaultLoggerFactory() // a refused write is logged by the interceptor: not an observable
 		quiet.DefaultLogLevel = logging.LogLevelDisabled
 		f, err := twcc.NewSenderInterceptor(twcc.SendInterval(interval), twcc.WithLoggerFactory(quiet))
@@ -200,16 +334,29 @@ func c05SndRun(t *testing.T, ops []string, o *Out) {
 		var mu sync.Mutex
 		var batches [][]rtcp.Packet
 		nBatch := 0
+		muted := false
 		defer o.EndKept()
-		ic.BindRTCPWriter(interceptor.RTCPWriterFunc(func(pkts []rtcp.Packet, _ interceptor.Attributes) (int, error) {
+		rtcpWriter := interceptor.RTCPWriterFunc(func(pkts []rtcp.Packet, _ interceptor.Attributes) (int, error) {
 			mu.Lock()
+			if muted { // the case is over (see the end of the interpreter)
+				mu.Unlock()
+				return 0, nil
+			}
 			batches = append(batches, pkts)
 			nBatch++
+			n := nBatch
 			// the writer owns what it was given (it may queue it): kept by pointer, re-rendered after every later op
 			o.KeepRTCPs(fmt.Sprintf("write#%d", nBatch), pkts)
 			mu.Unlock()
-			return 0, o.RTCPWriteErr() // the transport may refuse chosen calls (ambient failrtcp=)
-		}))
+			err := o.RTCPWriteErr() // the transport may refuse chosen calls (ambient failrtcp=)
+			if slowD > 0 && slowAt.hit(int64(n)) {
+				time.Sleep(slowD) // … and may be slow
+			}
+			return 0, err
+		})
+		if wbound {
+			ic.BindRTCPWriter(rtcpWriter)
+		}
 		var cur []byte
 		// an `adv` is spent lazily: inside the wrapped reader when a packet follows, else before the next op
 		pendUs := int64(-1)
@@ -225,13 +372,74 @@ func c05SndRun(t *testing.T, ops []string, o *Out) {
 		}
 		readers := map[uint32]interceptor.RTPReader{}
 		hasTcc := map[uint32]bool{}
+		arrived := make(chan struct{}, 1)
 		bind := func(ssrc uint32, tcc bool) {
 			hasTcc[ssrc] = tcc
 			readers[ssrc] = ic.BindRemoteStream(c05StreamInfo(ssrc, tcc),
 				interceptor.RTPReaderFunc(func(b []byte, a interceptor.Attributes) (int, interceptor.Attributes, error) {
+					if async { // on the Read's own goroutine; the interpreter waits for `arrived`
+						if pendUs >= 0 {
+							us := pendUs
+							pendUs = -1
+							time.Sleep(time.Duration(us) * time.Microsecond)
+							synctest.Wait() // a tick at this very instant comes first, as in the model
+						}
+						n := copy(b, cur)
+						arrived <- struct{}{}
+						return n, o.Bottom(a), nil
+					}
 					spend() // a blocking transport: the time until the packet arrives passes inside this Read
 					return copy(b, cur), o.Bottom(a), nil
 				}))
+		}
+		// read hands the packet `cur` to the stream's reader.  async: from a goroutine of its own; a Read that has not
+		// returned once everything has come to rest is waiting for the interceptor's goroutine and is looked at
+		// again after every later op (`sweep`).
+		var waiting []chan error
+		sweep := func(final bool) {
+			keep := waiting[:0]
+			for _, d := range waiting {
+				select {
+				case err := <-d:
+					if err != nil {
+						o.P("err:read")
+					}
+				default:
+					if final {
+						o.P("read-blocked") // no model prints this: the Read never came back
+					}
+					keep = append(keep, d)
+				}
+			}
+			waiting = keep
+		}
+		read := func(reader interceptor.RTPReader, buf []byte) {
+			if !async {
+				if _, _, err := reader.Read(buf, o.Attrs(nil)); err != nil {
+					o.P("err:read")
+				}
+				synctest.Wait()
+				return
+			}
+			done := make(chan error, 1)
+			attrs := o.Attrs(nil)
+			own := make([]byte, len(buf))
+			go func() {
+				_, _, err := reader.Read(own, attrs)
+				done <- err
+			}()
+			<-arrived
+			synctest.Wait()
+			flush()
+			sweep(false)
+			select {
+			case err := <-done:
+				if err != nil {
+					o.P("err:read")
+				}
+			default:
+				waiting = append(waiting, done)
+			}
 		}
 		bind(media, true)
 		flush = func() {
@@ -250,9 +458,16 @@ func c05SndRun(t *testing.T, ops []string, o *Out) {
 		rtpSeq := uint16(0)
 		for _, op := range ops[start:] {
 			o.CheckKept()
+			sweep(false)
 			fs := strings.Fields(op)
 			name, m := kv(op)
 			switch {
+			case op == "bindw" && !wbound:
+				spend()
+				wbound = true
+				ic.BindRTCPWriter(rtcpWriter)
+				synctest.Wait()
+				flush()
 			case name == "bind" && len(fs) == 3:
 				ssrc, ok1 := c05ParseU(m["ssrc"], 0xFFFFFFFF)
 				tcc, ok2 := c05ParseU(m["tcc"], 1)
@@ -295,10 +510,7 @@ func c05SndRun(t *testing.T, ops []string, o *Out) {
 					continue
 				}
 				cur = raw
-				if _, _, err := reader.Read(buf, o.Attrs(nil)); err != nil {
-					o.P("err:read")
-				}
-				synctest.Wait()
+				read(reader, buf)
 			case name == "mal" && len(fs) == 4:
 				seq, ok := c05ParseU(m["seq"], 65535)
 				ssrc, ok2 := c05ParseU(m["ssrc"], 0xFFFFFFFF)
@@ -318,10 +530,7 @@ func c05SndRun(t *testing.T, ops []string, o *Out) {
 				}
 				_ = kind
 				cur = raw
-				if _, _, err := reader.Read(buf, o.Attrs(nil)); err != nil {
-					o.P("err:read")
-				}
-				synctest.Wait()
+				read(reader, buf)
 			case name == "adv" && len(fs) == 2:
 				spend()
 				us, ok := c05ParseU(m["us"], 1<<40)
@@ -337,6 +546,16 @@ func c05SndRun(t *testing.T, ops []string, o *Out) {
 			}
 		}
 		spend()
+		if len(waiting) > 0 && wbound {
+			// the case ends while a Write is in progress: the Reads that wait for it return when it does (what the
+			// interceptor writes from now on is no longer part of the case)
+			mu.Lock()
+			muted = true
+			mu.Unlock()
+			time.Sleep(slowD)
+			synctest.Wait()
+		}
+		sweep(wbound) // (without a writer the Reads are still waiting, rightly; Close releases them)
 		o.CheckKeptAll()
 		if err := ic.Close(); err != nil {
 			o.P("err:close")
